@@ -36,11 +36,13 @@ const (
 var kNames = []string{"insert", "update", "remove", "batchInsert", "batchUpdate", "batchRemove"}
 
 const (
-	PauseNone = iota
+	PauseNone         = iota
 	PauseUntilApplied // hold the caller between Propose and waiting until the change is visible in the index
 	PauseFixed
 	PauseBeyondDeadline // the caller's own (short) deadline expires while it is held: outcome or timeout are both fine for
 	// this call, but the outcome must not leak to anybody else
+	PauseRaceDeadline // no pause: the caller's own deadline (DeadlineUs, tens to hundreds of microseconds) expires about when
+	// its entry is applied, so the caller abandons its notification channel while the apply loop delivers into it
 )
 
 type Item struct {
@@ -53,6 +55,8 @@ type Op struct {
 	Items []Item `json:"items"` // one item for the single forms
 	Entry int    `json:"entry"`
 	Pause int    `json:"pause"`
+	// DeadlineUs: the caller's deadline for PauseRaceDeadline
+	DeadlineUs int `json:"deadline_us,omitempty"`
 }
 
 type Case struct {
@@ -104,7 +108,10 @@ func genCase(t *rapid.T) Case {
 	})
 	op := rapid.Custom(func(t *rapid.T) Op {
 		o := Op{K: rapid.SampledFrom([]int{KInsert, KInsert, KInsert, KUpdate, KRemove, KBatchInsert, KBatchUpdate, KBatchRemove}).Draw(t, "k"),
-			Entry: rapid.IntRange(0, c.Nodes-1).Draw(t, "entry"), Pause: rapid.SampledFrom([]int{PauseNone, PauseNone, PauseUntilApplied, PauseUntilApplied, PauseFixed, PauseBeyondDeadline}).Draw(t, "pause")}
+			Entry: rapid.IntRange(0, c.Nodes-1).Draw(t, "entry"), Pause: rapid.SampledFrom([]int{PauseNone, PauseNone, PauseUntilApplied, PauseUntilApplied, PauseFixed, PauseBeyondDeadline, PauseRaceDeadline, PauseRaceDeadline}).Draw(t, "pause")}
+		if o.Pause == PauseRaceDeadline {
+			o.DeadlineUs = rapid.IntRange(20, 900).Draw(t, "deadline")
+		}
 		if o.K >= KBatchInsert {
 			o.Items = rapid.SliceOfN(item, 1, 4).Draw(t, "items")
 		} else {
@@ -344,6 +351,11 @@ func check(c Case, o *pbt.Obs) *pbt.Failure {
 					ctx, cancel = context.WithTimeout(context.Background(), 15*time.Millisecond)
 					lab("caller-deadline-expires-while-paused")
 				}
+				if op.Pause == PauseRaceDeadline {
+					cancel()
+					ctx, cancel = context.WithTimeout(context.Background(), time.Duration(op.DeadlineUs)*time.Microsecond)
+					lab("caller-deadline-expires-about-when-its-entry-is-applied")
+				}
 				if c.LongWait && ci == 0 && !longWaitUsed && op.K < KBatchInsert && !op.Items[0].WrongDim {
 					if pi := ds.VerifPartitionOf(uid(ci, op.Items[0].Id)); reachable[pi] && !quorum[pi] {
 						hosts := false
@@ -392,15 +404,42 @@ func check(c Case, o *pbt.Obs) *pbt.Failure {
 				if op.Pause == PauseUntilApplied {
 					lab("apply-before-wait")
 				}
-				if op.Pause == PauseBeyondDeadline {
+				if op.Pause == PauseRaceDeadline && err == nil {
+					lab("racing-deadline:outcome-arrived-first")
+				}
+				if op.Pause == PauseBeyondDeadline || op.Pause == PauseRaceDeadline {
 					// the call may return its outcome or its own deadline error; either way re-read what happened
 					time.Sleep(3 * time.Millisecond)
-					for _, it := range op.Items {
-						if f, v, _ := w.lookupAll(uid(ci, it.Id)); f {
-							model[it.Id] = v
-						} else {
-							model[it.Id] = 0
+					read := func() string {
+						sig := ""
+						for _, it := range op.Items {
+							if f, v, _ := w.lookupAll(uid(ci, it.Id)); f {
+								model[it.Id] = v
+							} else {
+								model[it.Id] = 0
+							}
+							sig += fmt.Sprintf("%d=%d;", it.Id, model[it.Id])
 						}
+						for i := 0; i < c.Nodes; i++ {
+							if !w.down[i] {
+								for _, g := range w.cl.Groups(i, slot) {
+									if st := g.VerifStatus(); st.Commit != st.Applied {
+										sig += fmt.Sprintf("applying%d/%d@%d;", st.Applied, st.Commit, time.Now().UnixNano())
+									}
+								}
+							}
+						}
+						return sig
+					}
+					// (the abandoned entry may still be on its way: wait until two readings a millisecond apart agree and
+					// no live replica has committed entries left to apply)
+					for k, prev := 0, read(); k < 40; k++ {
+						time.Sleep(time.Millisecond)
+						cur := read()
+						if cur == prev {
+							break
+						}
+						prev = cur
 					}
 					continue
 				}
@@ -635,7 +674,7 @@ func check(c Case, o *pbt.Obs) *pbt.Failure {
 func TestAcknowledgementsAreTruthful(t *testing.T) {
 	pbt.Run(t, pbt.Prop[Case]{
 		ID: "C11", Name: "TestAcknowledgementsAreTruthful",
-		Rule: "rapid-generated clusters on the product path (1-3 nodes, 1-2 partitions with generated replica sets so that entry nodes may or may not host the owner, a generated set of nodes killed after election: owners unreachable or without quorum) with 1-4 concurrent callers, each issuing 1-8 single/batch insert/update/remove calls on its own ids through generated entry nodes (items of the wrong dimension mixed in), and a generated pause at the hook between Propose returning and the caller starting to wait (none / long enough for the apply to finish first / short); oracle per item: a success is visible in the owner partition with the right version, outcomes equal the caller's own sequential history (already exists / not found), wrong-dimension items are rejected with DimensionMissmatchErr and (single caller) append no log entry, unreachable owner or no quorum never yields success, a proposal that was applied on a healthy partition never ends in a timeout for its caller, batch error maps carry only ids of the batch; non-trivial = >=2 concurrent callers or a pause that lets the apply finish first; distinct = distinct case JSON",
+		Rule:    "rapid-generated clusters on the product path (1-3 nodes, 1-2 partitions with generated replica sets so that entry nodes may or may not host the owner, a generated set of nodes killed after election: owners unreachable or without quorum) with 1-4 concurrent callers, each issuing 1-8 single/batch insert/update/remove calls on its own ids through generated entry nodes (items of the wrong dimension mixed in), and a generated pause at the hook between Propose returning and the caller starting to wait (none / long enough for the apply to finish first / short); oracle per item: a success is visible in the owner partition with the right version, outcomes equal the caller's own sequential history (already exists / not found), wrong-dimension items are rejected with DimensionMissmatchErr and (single caller) append no log entry, unreachable owner or no quorum never yields success, a proposal that was applied on a healthy partition never ends in a timeout for its caller, batch error maps carry only ids of the batch; non-trivial = >=2 concurrent callers or a pause that lets the apply finish first; distinct = distinct case JSON",
 		Gen:     genCase,
 		Check:   check,
 		Journal: true,
